@@ -33,6 +33,9 @@ pub enum Outcome {
     Panic(String),
     Crash(String),
     Hang,
+    /// the isolated child could not be run at all (spawn failure, death before the first
+    /// input, an outcome that does not reproduce): harness trouble, never a verdict
+    Harness(String),
 }
 
 // ---------------------------------------------------------------------------
@@ -221,7 +224,7 @@ fn run_child(ctx: &Ctx, items: &[(usize, Vec<u8>)], per_item_timeout: Duration) 
                 if let Some((i, _)) = started {
                     outcomes[i] = Some(Outcome::Crash(what.clone()));
                 }
-                died = Some(what);
+                died = Some(format!("{what}; stderr tail: {}", err_tail.chars().rev().take(300).collect::<String>().chars().rev().collect::<String>().replace('\n', " | ")));
             }
         }
     }
@@ -234,7 +237,7 @@ pub fn run_all(ctx: &Ctx, items: &[(usize, Vec<u8>)]) -> Vec<Outcome> {
     let mut start = 0;
     while start < items.len() {
         let end = (start + 4000).min(items.len());
-        let (res, _died) = run_child(ctx, &items[start..end], Duration::from_secs(20));
+        let (res, died) = run_child(ctx, &items[start..end], Duration::from_secs(20));
         let mut advanced = 0;
         for r in res {
             match r {
@@ -246,8 +249,25 @@ pub fn run_all(ctx: &Ctx, items: &[(usize, Vec<u8>)]) -> Vec<Outcome> {
             }
         }
         if advanced == 0 {
-            // child died before starting anything: harness trouble; mark as rejected to move on
-            out.push(Outcome::Crash("child died before processing the input".into()));
+            // the child died before starting anything (memory pressure, spawn failure): that
+            // says nothing about the decoder. Retry, then record harness trouble and move on.
+            let mut recovered = false;
+            let mut why = died.unwrap_or_else(|| "no exit status".into());
+            for attempt in 1..=4u64 {
+                std::thread::sleep(Duration::from_millis(300 * attempt));
+                let (res2, died2) = run_child(ctx, &items[start..(start + 1).min(items.len())], Duration::from_secs(20));
+                if let Some(d) = died2 {
+                    why = d;
+                }
+                if let Some(Some(o)) = res2.into_iter().next() {
+                    out.push(o);
+                    recovered = true;
+                    break;
+                }
+            }
+            if !recovered {
+                out.push(Outcome::Harness(format!("isolated child died before processing any input (5 attempts): {why}")));
+            }
             advanced = 1;
         }
         start += advanced;
@@ -270,6 +290,7 @@ pub fn judge(t: &Target, input: &[u8], o: &Outcome) -> Check {
         Outcome::Panic(m) => Err(Fail::new(format!("C13/{}/panic:{}", t.name, norm_msg(m)), format!("input ({} bytes) {}…: panic: {m}", input.len(), show()))),
         Outcome::Crash(w) => Err(Fail::new(format!("C13/{}/crash:{}", t.name, norm_msg(w)), format!("input ({} bytes) {}…: child process died: {w}", input.len(), show()))),
         Outcome::Hang => Err(Fail::new(format!("C13/{}/non-termination", t.name), format!("input ({} bytes) {}…: no result within 20 s", input.len(), show()))),
+        Outcome::Harness(_) => Ok(()),
         Outcome::Accepted { peak } | Outcome::Rejected { peak } => {
             let allowed = ALLOC_BASE + ALLOC_FACTOR * input.len() + t.alloc_cap;
             if *peak > allowed {
@@ -463,6 +484,7 @@ impl Sub for C13Sub {
         let outcomes = run_all(ctx, &plain);
         let st = rec.subs.entry(self.name.to_string()).or_default();
         let mut fails: Vec<(usize, Fail)> = Vec::new();
+        let mut harness_trouble: Vec<String> = Vec::new();
         for (i, o) in outcomes.iter().enumerate() {
             let (ti, input, structured) = &items[i];
             st.evaluations += 1;
@@ -473,6 +495,7 @@ impl Sub for C13Sub {
                 Outcome::Panic(_) => "panic",
                 Outcome::Crash(_) => "crash",
                 Outcome::Hang => "hang",
+                Outcome::Harness(_) => "harness-trouble",
             };
             *st.classes.entry(format!("{}:{cls}", t[*ti].name)).or_default() += 1;
             if matches!(o, Outcome::Accepted { .. }) || *structured {
@@ -481,6 +504,28 @@ impl Sub for C13Sub {
                     st.samples.push(json!({"target": t[*ti].name, "input_hex": hex::encode(input), "outcome": cls}));
                 }
             }
+            if let Outcome::Harness(m) = o {
+                harness_trouble.push(format!("{}: {m}", t[*ti].name));
+                continue;
+            }
+            // a process-level outcome (death, silence) must reproduce in a fresh child of its
+            // own before it counts: a loaded machine can kill or starve a child
+            let confirmed;
+            let o = if matches!(o, Outcome::Crash(_) | Outcome::Hang) {
+                let again = run_all(ctx, &[(*ti, input.clone())]);
+                match again.into_iter().next() {
+                    Some(o2 @ (Outcome::Crash(_) | Outcome::Hang | Outcome::Panic(_))) => {
+                        confirmed = o2;
+                        &confirmed
+                    }
+                    _ => {
+                        harness_trouble.push(format!("{}: a child death / silence did not reproduce in a fresh child", t[*ti].name));
+                        continue;
+                    }
+                }
+            } else {
+                o
+            };
             if let Err(f) = judge(&t[*ti], input, o) {
                 if ctx.is_known(&f.sig) {
                     *st.known.entry(f.sig).or_default() += 1;
@@ -491,6 +536,9 @@ impl Sub for C13Sub {
         }
         st.exhaustive = self.kind == 2;
         st.wall_s = t0.elapsed().as_secs_f64();
+        harness_trouble.sort();
+        harness_trouble.dedup();
+        rec.inconclusive.extend(harness_trouble.into_iter().map(|m| format!("{}: {m}", self.name)));
         for (i, f) in fails {
             let (ti, input, _) = &items[i];
             // minimise: shortest prefix / halving that still fails with the same signature
